@@ -447,3 +447,124 @@ def contexts(g: Grammar, short: Dict[str, Tuple[str, ...]]) -> Dict[str, Tuple[T
                     ctx[s] = cand
                     changed = True
     return ctx
+
+
+def terminal_classes(g: Grammar) -> Dict[str, str]:
+    """Terminals that are interchangeable (swapping them maps the set of productions and the precedence table onto
+    itself) -> their representative.  Used to shrink bounded sentence enumeration without losing any shape."""
+    nts = set(g.nonterminals)
+    terms = [t for t in g.terminals]
+    shapes = {(p.lhs, p.rhs, p.prec) for p in g.productions[1:]}
+    rep: Dict[str, str] = {}
+    for t in terms:
+        if t in rep:
+            continue
+        rep[t] = t
+        for u in terms:
+            if u in rep or g.prec_of.get(u) != g.prec_of.get(t):
+                continue
+
+            def sw(x):
+                return u if x == t else (t if x == u else x)
+            swapped = {(l, tuple(sw(x) for x in r), pr) for l, r, pr in shapes}
+            if swapped == shapes:
+                rep[u] = t
+    return rep
+
+
+def sentences(g: Grammar, max_len: int, only: Optional[Set[str]] = None, limit: int = 5_000_000):
+    """All terminal strings of length <= max_len the grammar derives (leftmost expansion with length pruning).
+    `only`: restrict to productions whose terminals are all in this set."""
+    nts = set(g.nonterminals)
+    by: Dict[str, List[Production]] = {}
+    for p in g.productions[1:]:
+        if only is not None and any(s not in nts and s not in only for s in p.rhs):
+            continue
+        by.setdefault(p.lhs, []).append(p)
+    short = shortest_expansions(g)
+    minlen = {n: len(short[n]) for n in nts if n in short}
+    out: Set[Tuple[str, ...]] = set()
+    seen: Set[Tuple[str, ...]] = set()
+    stack: List[Tuple[str, ...]] = [(g.start,)]
+    while stack:
+        form = stack.pop()
+        i = next((k for k, x in enumerate(form) if x in nts), None)
+        if i is None:
+            out.add(form)
+            if len(out) > limit:
+                raise AnalysisError('sentence enumeration exceeds %d sentences' % limit)
+            continue
+        for p in by.get(form[i], []):
+            nf = form[:i] + p.rhs + form[i + 1:]
+            ml = 0
+            ok = True
+            for x in nf:
+                if x in nts:
+                    if x not in minlen:
+                        ok = False
+                        break
+                    ml += minlen[x]
+                else:
+                    ml += 1
+            if not ok or ml > max_len or nf in seen:
+                continue
+            seen.add(nf)
+            stack.append(nf)
+    return out
+
+
+def stuck_state(t: Tables, tokens: List[str]) -> Tuple[int, str]:
+    """State and lookahead at which the automaton stops on a rejected token string."""
+    g = t.grammar
+    stack = [0]
+    toks = list(tokens) + [END]
+    i = 0
+    while True:
+        s = stack[-1]
+        a = toks[i]
+        act = t.action[s].get(a)
+        if act is None or act[0] == 'err':
+            return s, a
+        if act[0] == 's':
+            stack.append(act[1])
+            i += 1
+        elif act[0] == 'r':
+            p = g.productions[act[1]]
+            if p.rhs:
+                del stack[-len(p.rhs):]
+            stack.append(t.goto[stack[-1]][p.lhs])
+        else:
+            return s, a
+
+
+def run_decisions(t: Tables, tokens: List[str]) -> Tuple[bool, List[Decision]]:
+    """Drive the automaton; return (accepted, the conflict decisions that were consulted on the way)."""
+    idx = getattr(t, '_dec_index', None)
+    if idx is None:
+        idx = {}
+        for d in t.decisions:
+            idx.setdefault((d.state, d.token), []).append(d)
+        t._dec_index = idx  # type: ignore
+    g = t.grammar
+    stack = [0]
+    toks = list(tokens) + [END]
+    i = 0
+    seen: List[Decision] = []
+    while True:
+        s = stack[-1]
+        a = toks[i]
+        if (s, a) in idx:
+            seen.extend(idx[(s, a)])
+        act = t.action[s].get(a)
+        if act is None or act[0] == 'err':
+            return False, seen
+        if act[0] == 's':
+            stack.append(act[1])
+            i += 1
+        elif act[0] == 'r':
+            p = g.productions[act[1]]
+            if p.rhs:
+                del stack[-len(p.rhs):]
+            stack.append(t.goto[stack[-1]][p.lhs])
+        else:
+            return True, seen
